@@ -3,7 +3,7 @@ uninterpreted models of SHA-256 / HKDF.  Every function falls through to the
 real builtin when no proxy value is involved."""
 import re, binascii, hashlib, json as _json, builtins
 import z3
-from .core import (Ctx, SymInt, SymBool, SymBytes, SymHex, Chunk, EngineUnsupported, PathAbort, T, B,
+from .core import (Ctx, SymInt, SymBool, SymBytes, SymByteArray, SymHex, Chunk, EngineUnsupported, PathAbort, T, B,
                    sym_pow, is_sym, _mk_bool)
 
 _real_int, _real_isinstance, _real_pow = builtins.int, builtins.isinstance, builtins.pow
@@ -365,11 +365,37 @@ class _BytesMeta(type):
         return isinstance(o, (bytes, SymBytes))
 
 
+class _ByteArrayMeta(type):
+    def __instancecheck__(cls, o):
+        return isinstance(o, (bytearray, SymByteArray))
+
+
+class sym_bytearray(metaclass=_ByteArrayMeta):
+    """`bytearray` as the library sees it: a real bytearray for concrete arguments, SymByteArray when a proxy is involved"""
+    def __new__(cls, *a, **k):
+        if a and isinstance(a[0], (SymBytes, SymByteArray)):
+            return SymByteArray(SymBytes.of(a[0]).items())
+        if a and isinstance(a[0], (list, tuple)) and any(isinstance(x, SymInt) for x in a[0]):
+            out = SymByteArray([])
+            out.extend(a[0])
+            return out
+        if a and isinstance(a[0], SymInt):
+            raise EngineUnsupported("bytearray(n) with a symbolic length")
+        return bytearray(*a, **k)
+
+    @staticmethod
+    def fromhex(h):
+        r = sym_bytes.fromhex(h)
+        return sym_bytearray(r)
+
+
 class sym_bytes(metaclass=_BytesMeta):
     """`bytes` as the library sees it: real bytes for concrete arguments, SymBytes when a proxy is involved"""
     def __new__(cls, *a, **k):
         if a and isinstance(a[0], SymBytes):
             return a[0]
+        if a and isinstance(a[0], SymByteArray):
+            return SymBytes.of(a[0])
         if a and isinstance(a[0], (list, tuple)) and any(isinstance(x, SymInt) for x in a[0]):
             return SymBytes([x.t if isinstance(x, SymInt) else x for x in a[0]])
         if a and isinstance(a[0], SymInt):
@@ -415,6 +441,7 @@ def instrument(mod):
         except Exception:
             pass
     mod.bytes = sym_bytes
+    mod.bytearray = sym_bytearray
     mod.__sym_mod__ = sym_mod
     mod.__sym_join__ = sym_join
     mod.int = sym_int
